@@ -68,7 +68,7 @@ Definition size_len (n : N) : N :=
   if n <? 64 then 1 else if n <? 16384 then 2 else if n <? 1073741824 then 4 else 8.
 
 Definition size_tail (c : N) : nat :=
-  match c with 0 => 0 | 1 => 1 | 2 => 3 | _ => 7 end%nat.
+  match c with 0 => 0%nat | 1 => 1%nat | 2 => 3%nat | _ => 7%nat end.
 
 (** [read_size]: [None] is [Error::Eof] *)
 Definition size_dec (bs : list byte) : option (N * list byte) :=
